@@ -230,7 +230,7 @@ func (c *c20) isolation(tape *kernel.Tape, n int) {
 			w.Store.Inject = func(n int, method string, rid int) string {
 				if method == "CreateAuthRequest" && !fired {
 					fired = true
-					return world.FaultSentinel
+					return ch.Pick(world.FaultSentinel, world.FaultBareSentinel)
 				}
 				return ""
 			}
@@ -400,6 +400,10 @@ func (c *c20) isolation(tape *kernel.Tape, n int) {
 			c.viol("caller-object-mutated", "oidc.Error/storage-error-value", "after %q: the error value owned by the storage was modified: state=%q session_state=%q description=%q", desc, e.State, e.SessionState, e.Description)
 			e.State, e.SessionState, e.Description, e.Parent = "", "", "simstore: storage unavailable", nil
 		}
+		if e := w.Store.BareSentinel; e.State != "" || e.SessionState != "" || e.Description != "" || e.Parent != nil {
+			c.viol("caller-object-mutated", "oidc.Error/storage-error-value-without-description", "after %q: the error value owned by the storage (returned wrapped) was modified: state=%q session_state=%q description=%q parent=%v", desc, e.State, e.SessionState, e.Description, e.Parent)
+			e.State, e.SessionState, e.Description, e.Parent = "", "", "", nil
+		}
 		if got := strings.Join(callerHeaders, ","); got != callerHeadersBefore {
 			c.viol("caller-object-mutated", "op.WithIssuerFromCustomHeaders/headers", "after %q: the caller's header list was rewritten: %s -> %s", desc, callerHeadersBefore, got)
 			callerHeaders = strings.Split(callerHeadersBefore, ",")
@@ -515,6 +519,9 @@ func raceMix(w *world.World, tape *kernel.Tape, mix string) {
 		}
 		w.Store.Inject = func(n int, method string, rid int) string {
 			if method == "CreateAuthRequest" || method == "SaveAuthCode" {
+				if rid%2 == 0 {
+					return world.FaultBareSentinel
+				}
 				return world.FaultSentinel
 			}
 			return ""
